@@ -323,7 +323,7 @@ class Lexer:
                     self.path_stack[-1].stop = self.pos
                 elif self.env.shorthand_indexes:
                     if match := self.RE_INDEX.match(self.source, self.pos):
-                        self.path_stack[-1].path.append(int(match.group()))
+                        self.path_stack[-1].path.append(self.index(match.group()))
                         self.pos += match.end() - match.start()
                         self.start = self.pos
                         self.path_stack[-1].stop = self.pos
@@ -371,7 +371,7 @@ class Lexer:
                         self.path_stack[-1].stop = self.start
 
                 elif match := self.RE_INDEX.match(self.source, self.pos):
-                    self.path_stack[-1].path.append(int(match.group()))
+                    self.path_stack[-1].path.append(self.index(match.group()))
                     self.pos += match.end() - match.start()
                     self.start = self.pos
                     self.ignore_whitespace()
@@ -406,6 +406,14 @@ class Lexer:
                 if len(self.path_stack) > 1:
                     self.error("unbalanced brackets")
                 return
+
+    def index(self, text: str) -> int:
+        """Return the array index _text_ as an int."""
+        try:
+            return int(text)
+        except ValueError:
+            # More digits than sys.get_int_max_str_digits() allows.
+            self.error("array index out of range")
 
     def accept_string(self, *, quote: str) -> None:
         # Assumes the opening quote has been consumed.
